@@ -406,13 +406,13 @@ impl<'xml> DeserializeContent<'xml> for String {
 
 impl<'xml> DeserializeContent<'xml> for i32 {
     fn deserialize_content(d: &mut Deserializer<'xml>) -> DeResult<Self> {
-        d.text(|t| atoi::atoi::<Self>(t.as_ref()).ok_or(DeError::InvalidContent))
+        d.text(|t| crate::utils::parse_integer::<Self>(t.as_ref()).ok_or(DeError::InvalidContent))
     }
 }
 
 impl<'xml> DeserializeContent<'xml> for i64 {
     fn deserialize_content(d: &mut Deserializer<'xml>) -> DeResult<Self> {
-        d.text(|t| atoi::atoi::<Self>(t.as_ref()).ok_or(DeError::InvalidContent))
+        d.text(|t| crate::utils::parse_integer::<Self>(t.as_ref()).ok_or(DeError::InvalidContent))
     }
 }
 
